@@ -104,6 +104,7 @@ pub fn battery(e: &Envelope, other: &Envelope, keys: &Keys) -> Vec<(String, Stri
     t!("sign", e.sign(&keys.base));
     t!("recipients", e.recipients()); t!("add_recipient", e.add_recipient(&pubk, &keys.sym)); t!("decrypt_subject_to_recipient", e.decrypt_subject_to_recipient(&keys.base));
     t!("decrypt_to_recipient", e.decrypt_to_recipient(&keys.base)); t!("encrypt_subject_to_recipient", e.encrypt_subject_to_recipient(&pubk));
+    for (sk, _) in &keys.kems { t!("decrypt_subject_to_recipient(kem)", e.decrypt_subject_to_recipient(sk)); t!("decrypt_to_recipient(kem)", e.decrypt_to_recipient(sk)); t!("unseal(kem)", e.unseal(&pubk, sk)); }
     t!("sskr_join", Envelope::sskr_join(&[e, other])); t!("sskr_join1", Envelope::sskr_join(&[e]));
     t!("unseal", e.unseal(&pubk, &keys.base));
     // proofs
@@ -122,12 +123,14 @@ pub fn battery(e: &Envelope, other: &Envelope, keys: &Keys) -> Vec<(String, Stri
     hits
 }
 
-pub struct Keys { pub sym: SymmetricKey, pub base: PrivateKeyBase, pub base2: PrivateKeyBase }
+pub struct Keys { pub sym: SymmetricKey, pub base: PrivateKeyBase, pub base2: PrivateKeyBase, pub kems: Vec<(bc_components::EncapsulationPrivateKey, bc_components::EncapsulationPublicKey)> }
 
 impl Keys {
     pub fn new() -> Self {
         Keys { sym: SymmetricKey::from_data_ref(hex::decode(KEY1).unwrap()).unwrap(),
-               base: PrivateKeyBase::from_data(&[7u8; 32]), base2: PrivateKeyBase::from_data(&[9u8; 32]) }
+               base: PrivateKeyBase::from_data(&[7u8; 32]), base2: PrivateKeyBase::from_data(&[9u8; 32]),
+               // one key pair of every encapsulation scheme and level: a key of one scheme / level presented to a message of another
+               kems: [bc_components::EncapsulationScheme::X25519, bc_components::EncapsulationScheme::MLKEM512, bc_components::EncapsulationScheme::MLKEM768, bc_components::EncapsulationScheme::MLKEM1024].iter().map(|s| s.keypair()).collect() }
     }
 }
 
@@ -213,6 +216,24 @@ pub fn c16(c: &mut Ctx, b: &Budget) {
     c.begin("special");
     let other = c.assign("leaf 63426f62");
     for r in special_envelopes(c) { if c.is_ok(&r) { c.obs(&format!("shape {}", r)); run_battery(c, &r, &other, &keys); } }
+    // shapes built with the library itself and imported through their encoding: valid attachments that carry assertions of their
+    // own (salted, annotated), envelopes encrypted to exactly one recipient of each scheme and level, to two, and sealed
+    {
+        let host = Envelope::new("host").add_assertion("k", 1);
+        let att = Envelope::new_attachment("payload", "vendor", Some("conf"));
+        let mut made: Vec<Envelope> = vec![
+            host.add_assertion_envelope(att.add_assertion(known_values::NOTE, "annotated")).unwrap(),
+            host.add_assertion_envelope_salted(att.clone(), true).unwrap(),
+            host.add_assertion_envelope(att.clone()).unwrap().add_assertion_envelope(att.add_assertion("x", 1)).unwrap(),
+        ];
+        for (_, pk) in &keys.kems {
+            if let Ok(Ok(x)) = guarded(|| host.encrypt_subject_to_recipient(pk)) { made.push(x); }
+            if let Ok(x) = guarded(|| host.encrypt_to_recipient(pk)) { made.push(x); }
+            if let Ok(x) = guarded(|| host.seal(&keys.base, pk)) { made.push(x); }
+        }
+        if let Ok(Ok(x)) = guarded(|| host.encrypt_subject_to_recipients(&[&keys.kems[1].1 as &dyn bc_envelope::Encrypter, &keys.kems[3].1 as &dyn bc_envelope::Encrypter])) { made.push(x); }
+        for m in made { let r = c.assign(&format!("decode {}", hex::encode(m.tagged_cbor().to_cbor_data()))); if c.is_ok(&r) { c.obs(&format!("shape {}", r)); run_battery(c, &r, &other, &keys); c.count("special:library-built"); } }
+    }
     c.end();
     for i in 0..b.scenarios {
         c.begin("history");
